@@ -10,12 +10,16 @@ individual `(key, payload)` signatures inside an aggregate; an adversary can onl
 that exist. The model is run against the real `CheckBasic/Check/ProcessDSE/AddDSE/ValidateByzantineEvidence`
 with real BLS committees and against a real `fsm.StateMachine` on every check.
 
-Two clauses of the property are FALSE of the code and are stated accordingly
-(`…_partial` + the negation at a concrete witness, reproduced on the real code by the Go oracle):
-* **expired evidence** — `ProcessDSE` asks for the minimum evidence height *at the evidence's own root
-  height*, so the bound it compares with is never above that height (`expiry_vacuous_as_wired`);
+Two clauses of the property were found FALSE of the code by this check:
+* **expired evidence** — `ProcessDSE` asked for the minimum evidence height *as of the evidence's own root
+  height*, so the bound it compared with was never above that height. Repaired in /repo (c09f5c7: the bound
+  is asked as of the replica's current root height). `expired_ignored` is now proved at full strength for the
+  repaired wiring, which `expiry_wiring` pins from the source; the behaviour before the repair is kept as
+  witness theorems (`expiry_vacuous_before_fix`, `expired_ignored_fails_before_fix`) and the Go driver keeps the
+  scenario as a permanent corpus case;
 * **cap** — under protocol version 1 (`IsFeatureEnabled(2) = false`, the default genesis) `SlashValidator`
-  has no tracker and no cap (`cap_fails_protocol_v1`).
+  has no tracker and no cap (`cap_fails_protocol_v1`; a recorded known finding). Under version ≥ 2 the cap is
+  proved (`cap_partial`).
 -/
 namespace Canopy.C14
 open Canopy Canopy.Gate Canopy.Evidence
@@ -31,32 +35,13 @@ over two DIFFERENT payloads, whose aggregates both contain `v`'s own individual 
 above PROPOSE and the root height is not below the minimum the controller answered. -/
 theorem implicated_sound (env : Env) (slash : List (Option DS)) (be : List (Option DSE))
     (hacc : validateByzantineEvidence env (some slash) be = none) (ds : DS) (hds : some ds ∈ slash) :
-    (∃ x ∈ be, ∃ h, Equivocation env x ds.id h) ∧
-    (∀ h ∈ ds.heights, ∃ x ∈ be, Equivocation env x ds.id h) := by
-  unfold validateByzantineEvidence at hacc
-  simp only at hacc
-  split at hacc
-  · rename_i hlen
-    have : slash = [] := List.eq_nil_of_length_eq_zero (by simpa using hlen)
-    rw [this] at hds; simp at hds
-  · split at hacc; · contradiction
-    rename_i localDS hproc
-    have hb := processDSE_backed hproc
-    obtain ⟨s, hs, hid, hh⟩ := justified_spec (validateList_justified hacc ds hds)
-    obtain ⟨hne, hback⟩ := hb s hs
-    constructor
-    · cases hsh : s.heights with
-      | nil => exact absurd hsh hne
-      | cons h0 _ =>
-        obtain ⟨_, x, hx, hex⟩ := hback h0 (by rw [hsh]; exact List.mem_cons_self)
-        exact ⟨x, hx, h0, hid ▸ hex⟩
-    · intro h hmem
-      obtain ⟨_, x, hx, hex⟩ := hback h (hh h hmem)
-      exact ⟨x, hx, hid ▸ hex⟩
+    (∃ x ∈ be, ∃ h, Equivocation false env x ds.id h) ∧
+    (∀ h ∈ ds.heights, ∃ x ∈ be, Equivocation false env x ds.id h) :=
+  validate_sound hacc hds
 
 /-- the same for `ProcessDSE` itself (what a proposer puts into its own slash list, `CalculateSlashRecipients`) -/
 theorem processDSE_sound (env : Env) (be : List (Option DSE)) (res : List DS) (h : processDSE env be = .ok res)
-    (d : DS) (hd : d ∈ res) : ∀ h ∈ d.heights, ∃ x ∈ be, Equivocation env x d.id h :=
+    (d : DS) (hd : d ∈ res) : ∀ h ∈ d.heights, ∃ x ∈ be, Equivocation false env x d.id h :=
   fun h' hh' => ((processDSE_backed h d hd).2 h' hh').2
 
 /-- evidence replayed after its slash was indexed on the root chain yields nothing new: `ProcessDSE` never
@@ -67,7 +52,7 @@ theorem replayed_evidence_filtered (env : Env) (be : List (Option DSE)) (res : L
 
 /-- a leader only pools evidence (`AddDSE`) that proves somebody's equivocation -/
 theorem pooled_evidence_sound (env : Env) (dup : Bool) (x : Option DSE) (h : addDSE env dup x = .added) :
-    ∃ k hh, Equivocation env (x.map strip) k hh := addDSE_sound h
+    ∃ k hh, Equivocation false env (x.map strip) k hh := addDSE_sound h
 
 /-- what the signatures that exist say about a key: at most one payload per view -/
 def SignsOncePerView (world : List (KeyId × Payload)) (k : KeyId) : Prop :=
@@ -126,9 +111,10 @@ def exQC (blk : UInt8) (bm : List Bool) (signers : List KeyId) : QC :=
 def exA : QC := exQC 9 [true, true, true, false, false, false, false, false] [[1], [2], [3]]
 def exB : QC := exQC 5 [true, false, false, true, false, false, false, false] [[1], [4]]
 def exEvidence : Option DSE := some ⟨some exA, some exB⟩
-def exEnv (minAt : UInt64 → Option UInt64) : Env :=
-  { networkId := 1, chainId := 7, globalMaxBlockSize := 100000, committeeAt := fun r => if r == 3 then some exMembers else none,
+def exEnvAt (root : UInt64) (minAt : UInt64 → Option UInt64) : Env :=
+  { networkId := 1, chainId := 7, rootHeight := root, globalMaxBlockSize := 100000, committeeAt := fun r => if r == 3 then some exMembers else none,
     minEvidenceAt := minAt, alreadySlashed := fun _ _ => false }
+def exEnv := exEnvAt 4
 
 /-- the equivocator is found (and only the equivocator) … -/
 example : (processDSE (exEnv fun _ => some 0) [exEvidence]).toOption = some [⟨[1], [3]⟩] := by decide +kernel
@@ -211,15 +197,42 @@ example : errOf (handleDoubleSigners exP exAddrOf (runBlocks exP exAddrOf exLedg
 
 /-! ## (c) expired evidence -/
 
-/-- **expired_ignored_partial**: whatever bound the controller answers for the evidence's root height,
-evidence below it is never the basis of an accepted slash — every accepted (validator, height) has
-`bound ≤ height`. (Partial: *which* bound the node asks for is outside this statement; see below.) -/
-theorem expired_ignored_partial (env : Env) (bound : UInt64) (hbound : ∀ h, env.minEvidenceAt h = some bound)
+/-- FULL STATEMENT of the clause "expired evidence is ignored", for the node as it is wired: the replica is at
+root height `r` (`b.RootHeight`, `0 < r ≤` the root chain's height `cur`), the unstaking period is `ub`, and
+`LoadMinimumEvidenceHeight(_, h)` is answered by the root chain's RPC (`TimeMachine(h)` then
+`LoadMinimumEvidenceHeight`, i.e. `wiredMinEvidence cur ub h`). Then no accepted slash rests on evidence whose root
+height lies before the unstaking window that ends at `r`. `preFix` selects the wiring before / after repair c09f5c7. -/
+def ExpiredIgnored (preFix : Bool) : Prop :=
+  ∀ (cur ub : UInt64) (env : Env), env.rootHeight ≠ 0 → env.rootHeight ≤ cur →
+    (∀ h, env.minEvidenceAt h = some (wiredMinEvidence cur ub h)) →
+    ∀ (slash : List (Option DS)) (be : List (Option DSE)) (ds : DS) (h : UInt64),
+      validateByzantineEvidenceWith preFix env (some slash) be = none → some ds ∈ slash → h ∈ ds.heights →
+      ¬ h < Gen.Evidence.minEvidenceHeight env.rootHeight ub
+
+/-- **expired_ignored** (full strength, the repaired wiring): expired evidence never supports an accepted slash. -/
+theorem expired_ignored : ExpiredIgnored false := by
+  intro cur ub env h0 hle hwire slash be ds h hacc hds hh
+  obtain ⟨x, _, ⟨_, _, _, _, _, _, minH, _, _, _, _, _, _, _, _, _, _, hm, hmle⟩⟩ := (validate_sound hacc hds).2 h hh
+  simp only [Bool.false_eq_true, ↓reduceIte] at hm
+  rw [hwire] at hm
+  cases hm
+  have hz : (env.rootHeight == 0) = false := by simpa using h0
+  have hgt : decide (env.rootHeight > cur) = false := by
+    simp only [gt_iff_lt, decide_eq_false_iff_not, UInt64.not_lt]; exact hle
+  unfold wiredMinEvidence at hmle
+  simp only [hz, hgt, Bool.or_self, Bool.false_eq_true, ↓reduceIte] at hmle
+  rw [UInt64.lt_iff_toNat_lt]
+  rw [UInt64.le_iff_toNat_le] at hmle
+  omega
+
+/-- the same for whatever bound the controller answers: every accepted (validator, height) has `bound ≤ height` -/
+theorem expired_ignored_bound (env : Env) (bound : UInt64) (hbound : env.minEvidenceAt env.rootHeight = some bound)
     (slash : List (Option DS)) (be : List (Option DSE))
     (hacc : validateByzantineEvidence env (some slash) be = none) (ds : DS) (hds : some ds ∈ slash) :
     ∀ h ∈ ds.heights, bound ≤ h := by
   intro h hh
   obtain ⟨x, _, ⟨_, _, _, _, _, _, minH, _, _, _, _, _, _, _, _, _, _, hm, hle⟩⟩ := (implicated_sound env slash be hacc ds hds).2 h hh
+  simp only [Bool.false_eq_true, ↓reduceIte] at hm
   rw [hbound] at hm
   cases hm
   exact hle
@@ -233,23 +246,37 @@ theorem check_expired (env : Env) (a b : QC) (ha hb : View) (ms : List Member) (
 /-- one expired piece of evidence makes the whole proposal's evidence fail -/
 theorem expired_fails_list (env : Env) (be : List (Option DSE)) (a b : QC) (hd : View) (ms : List Member) (m : UInt64)
     (hx : some ⟨some a, some b⟩ ∈ be) (ha : a.header = some hd) (hb : b.header = some hd)
-    (hms : env.committeeAt hd.rootHeight = some ms) (hm : env.minEvidenceAt hd.rootHeight = some m) (hexp : hd.rootHeight < m)
+    (hms : env.committeeAt hd.rootHeight = some ms) (hm : env.minEvidenceAt env.rootHeight = some m) (hexp : hd.rootHeight < m)
     (slash : List (Option DS)) (hne : slash ≠ []) : validateByzantineEvidence env (some slash) be ≠ none := by
-  have hone : processOne env (some ⟨some a, some b⟩) = .error Gen.Err.lib.ErrEvidenceTooOld := by
-    unfold processOne unpack
+  have hone : processOneWith false env (some ⟨some a, some b⟩) = .error Gen.Err.lib.ErrEvidenceTooOld := by
+    unfold processOneWith unpack
     simp only [ha, hb, viewEquals_refl, Bool.not_true, Bool.false_eq_true, ↓reduceIte, hms, hm, check_expired env a b hd hd ms m hexp]
   obtain ⟨e', he'⟩ := processDSEFrom_error be [] hx hone
-  unfold validateByzantineEvidence processDSE
+  unfold validateByzantineEvidence validateByzantineEvidenceWith processDSEWith
   simp only [he']
   split
   · rename_i hlen; exact absurd (List.eq_nil_of_length_eq_zero (by simpa using hlen)) hne
   · simp
 
-/-- **the bound the node really asks for** (`ProcessDSE`: `LoadMinimumEvidenceHeight(rootChainId, committeeHeight)` with
-`committeeHeight := x.VoteA.Header.RootHeight`; the RPC endpoint evaluates `LoadMinimumEvidenceHeight` on
-`TimeMachine(that height)`): it is never above the evidence's own root height, for every current height and
-unstaking period — the expiry test of `Check` cannot fire (root height 0 aside). -/
-theorem expiry_vacuous_as_wired (cur ub h : UInt64) (h0 : h ≠ 0) : ¬ h < wiredMinEvidence cur ub h := by
+/-- the wiring, pinned from the source on every run: `ProcessDSE` asks as of `b.RootHeight` (c09f5c7), the
+controller forwards to the root chain's RPC, whose handler evaluates `LoadMinimumEvidenceHeight` on
+`TimeMachine(requested height)` -/
+theorem expiry_wiring :
+    Gen.Evidence.processDSE_minHeightArgs = "rootChainId, b.RootHeight" ∧
+    Gen.Evidence.processDSE_committeeHeight = "x.VoteA.Header.RootHeight" ∧
+    Gen.Evidence.src_controllerLoadMin = "return c.RCManager.GetMinimumEvidenceHeight(rootChainId, rootHeight)" ∧
+    Gen.Evidence.src_rcManagerGetMin = "return sub.MinimumEvidenceHeight(height)" ∧
+    Gen.Evidence.src_clientMin = "p = new(uint64); err = c.heightRequest(MinimumEvidenceHeightRouteName, height, p); return" ∧
+    Gen.Evidence.src_serverMin = "s.heightParams(w, r, func(...){return s.LoadMinimumEvidenceHeight()})" ∧
+    Gen.Evidence.src_timeMachineClamp = "if height == 0 || height > s.height { height = s.height }" :=
+  ⟨rfl, rfl, rfl, rfl, rfl, rfl, rfl⟩
+
+/-! ### the behaviour before repair c09f5c7, kept as witnesses -/
+
+/-- before the repair `ProcessDSE` asked for the bound as of the evidence's own root height `h`: that bound is
+never above `h`, for every root-chain height and unstaking period — the expiry test of `Check` could not fire
+(root height 0 aside). -/
+theorem expiry_vacuous_before_fix (cur ub h : UInt64) (h0 : h ≠ 0) : ¬ h < wiredMinEvidence cur ub h := by
   unfold wiredMinEvidence Gen.Evidence.minEvidenceHeight
   have hz : (h == 0) = false := by simpa using h0
   simp only [hz, Bool.false_or]
@@ -271,33 +298,18 @@ theorem expiry_vacuous_as_wired (cur ub h : UInt64) (h0 : h ≠ 0) : ¬ h < wire
       rw [UInt64.toNat_sub_of_le _ _ hlt]
       omega
 
-/-- the wiring, pinned from the source on every run -/
-theorem expiry_wiring :
-    Gen.Evidence.processDSE_minHeightArgs = "rootChainId, committeeHeight" ∧
-    Gen.Evidence.processDSE_committeeHeight = "x.VoteA.Header.RootHeight" ∧
-    Gen.Evidence.src_controllerLoadMin = "return c.RCManager.GetMinimumEvidenceHeight(rootChainId, rootHeight)" ∧
-    Gen.Evidence.src_rcManagerGetMin = "return sub.MinimumEvidenceHeight(height)" ∧
-    Gen.Evidence.src_clientMin = "p = new(uint64); err = c.heightRequest(MinimumEvidenceHeightRouteName, height, p); return" ∧
-    Gen.Evidence.src_serverMin = "s.heightParams(w, r, func(...){return s.LoadMinimumEvidenceHeight()})" ∧
-    Gen.Evidence.src_timeMachineClamp = "if height == 0 || height > s.height { height = s.height }" :=
-  ⟨rfl, rfl, rfl, rfl, rfl, rfl, rfl⟩
-
-/-- FULL STATEMENT of the clause "expired evidence is ignored", for the node as wired: with the root chain at
-height `cur` and unstaking period `ub`, no accepted slash rests on evidence older than `cur − ub`. -/
-def ExpiredIgnoredAsWired : Prop :=
-  ∀ (cur ub : UInt64) (env : Env), (∀ h, env.minEvidenceAt h = some (wiredMinEvidence cur ub h)) →
-    ∀ (slash : List (Option DS)) (be : List (Option DSE)) (ds : DS) (h : UInt64),
-      validateByzantineEvidence env (some slash) be = none → some ds ∈ slash → h ∈ ds.heights →
-      ¬ h < Gen.Evidence.minEvidenceHeight cur ub
-
-/-- **the full statement is false**: root chain at height 1000, unstaking period 2 (minimum evidence height 998);
-the equivocation of root height 3 is accepted. The Go oracle reproduces this on the real code
-(signature `C14:expired-evidence-accepted`). -/
-theorem expired_ignored_fails_as_wired : ¬ ExpiredIgnoredAsWired := by
+/-- **before the repair the full statement was false**: replica and root chain at height 1000, unstaking period 2
+(minimum evidence height 998); the equivocation of root height 3 was accepted. The Go driver keeps the scenario the
+oracle found (root chain at 10, unstaking 3, evidence of root height 6) as a corpus case that must be rejected now. -/
+theorem expired_ignored_fails_before_fix : ¬ ExpiredIgnored true := by
   intro h
-  have := h 1000 2 (exEnv fun r => some (wiredMinEvidence 1000 2 r)) (fun _ => rfl)
+  have := h 1000 2 (exEnvAt 1000 fun r => some (wiredMinEvidence 1000 2 r)) (by decide) (by decide) (fun _ => rfl)
     [some ⟨[1], [3]⟩] [exEvidence] ⟨[1], [3]⟩ 3 (by decide +kernel) (by simp) (by simp)
   exact this (by decide +kernel)
+
+/-- the same evidence, same state, after the repair: refused as too old -/
+example : validateByzantineEvidenceWith false (exEnvAt 1000 fun r => some (wiredMinEvidence 1000 2 r))
+    (some [some ⟨[1], [3]⟩]) [exEvidence] = some Gen.Err.lib.ErrEvidenceTooOld := by decide +kernel
 
 /-! ## (d) the per-committee cap within one block -/
 
@@ -406,7 +418,7 @@ theorem processDSE_shape : Gen.Evidence.processDSE = [
   "  if err != nil {",
   "    return nil, err",
   "  }",
-  "  minEvidenceHeight, err := b.LoadMinimumEvidenceHeight(rootChainId, committeeHeight)",
+  "  minEvidenceHeight, err := b.LoadMinimumEvidenceHeight(rootChainId, b.RootHeight)",
   "  if err != nil {",
   "    return nil, err",
   "  }",
